@@ -79,9 +79,9 @@ FAMILIES = {
         rule='per-type timeouts (odd multiples of 1/128 s) against handler programs of sleeps (multiples of 1/64 s), nested awaits; serial buses; '
              'non-trivial: a handler is cancelled by a deadline'),
     'C11': dict(
-        gens=[('core', dict(p_raise=0.3), 0.8), ('core', dict(p_raise=0.3, p_parallel=0.7, nb=(2, 3), proglen=(2, 6)), 0.1),
-              ('parraise', dict(), 0.1)],
-        facets=CORE + ['results', 'signal'],
+        gens=[('core', dict(p_raise=0.3), 0.7), ('core', dict(p_raise=0.3, p_parallel=0.7, nb=(2, 3), proglen=(2, 6)), 0.1),
+              ('parraise', dict(), 0.1), ('chain', dict(p_timeout=1.0, p_raise=0.2), 0.1)],
+        facets=CORE + ['results', 'signal', 'timeout'],
         rule='raising handlers at every position (parent, child, awaited child, forwarded bus; sync and async, before/after suspension); '
              'non-trivial: a handler raises'),
     'C13': dict(
